@@ -26,6 +26,7 @@ type oracle struct {
 	okOf    bool     // results are (pointer, ok) and ok is true exactly when the pointer is non-nil
 	args    []int    // which arguments the recorded effect captures (nil = all)
 	fatalIfFalse bool // (tbFatal functions) the callee fails the test itself when its result is false
+	ownLock bool // the callee works on state guarded by a lock of its own: the caller's holdLocks do not apply to the call
 	outArgs map[int]string // arguments passed as &x that the callee overwrites: index -> oracle parameter holding the new value
 }
 
@@ -92,12 +93,14 @@ var specs = []fnSpec{
 		params:  []param{{goName: "id", goType: "string", lean: "id", kd: kStr}},
 		goRets:  "error", rets: []string{"err"},
 		state:   []stateField{{goExpr: "s.cs", lean: "cs", kd: kind{k: "map", s: "clientState"}}},
+		holdLocks: []string{"s.csMu"},
 	},
 	{
 		file: "server/server.go", goName: "deleteClient", recvType: "*Server", callAs: "s.deleteClient", leanName: "deleteClient",
 		params:  []param{{goName: "id", goType: "string", lean: "id", kd: kStr}},
 		goRets:  "", rets: []string{},
 		state:   []stateField{{goExpr: "s.cs", lean: "cs", kd: kind{k: "map", s: "clientState"}}},
+		holdLocks: []string{"s.csMu"},
 	},
 	{
 		file: "server/server.go", goName: "updateParams", recvType: "*Server", callAs: "s.updateParams", leanName: "updateParams",
@@ -107,6 +110,7 @@ var specs = []fnSpec{
 		},
 		goRets: "error", rets: []string{"err"},
 		state:  []stateField{{goExpr: "s.cs", lean: "cs", kd: kind{k: "map", s: "clientState"}}},
+		holdLocks: []string{"s.csMu"},
 	},
 	{
 		file: "server/server.go", goName: "checkClientsConsistent", recvType: "*Server", callAs: "s.checkClientsConsistent", leanName: "checkClientsConsistent",
@@ -116,6 +120,7 @@ var specs = []fnSpec{
 		},
 		goRets: "bool, error", rets: []string{"bool", "err"},
 		state:  []stateField{{goExpr: "s.cs", lean: "cs", kd: kind{k: "map", s: "clientState"}}},
+		holdLocks: []string{"s.csMu"},
 	},
 	{
 		file: "server/server.go", goName: "setClientParams", recvType: "*Server", callAs: "s.setClientParams", leanName: "setClientParams",
@@ -125,6 +130,7 @@ var specs = []fnSpec{
 		},
 		goRets: "error", rets: []string{"err"},
 		state:  []stateField{{goExpr: "s.cs", lean: "cs", kd: kind{k: "map", s: "clientState"}}},
+		holdLocks: []string{"s.csMu"},
 	},
 	{
 		file: "server/server.go", goName: "storeClientElectionID", recvType: "*Server", callAs: "s.storeClientElectionID", leanName: "storeClientElectionID",
@@ -134,6 +140,7 @@ var specs = []fnSpec{
 		},
 		goRets: "bool", rets: []string{"bool"},
 		state:  []stateField{{goExpr: "s.cs", lean: "cs", kd: kind{k: "map", s: "clientState"}}},
+		holdLocks: []string{"s.csMu"},
 	},
 	{
 		file: "server/server.go", goName: "getClientStateCopy", recvType: "*Server", callAs: "s.getClientStateCopy", leanName: "getClientStateCopy",
@@ -141,6 +148,7 @@ var specs = []fnSpec{
 		goRets:  "*clientState, error", rets: []string{"ptr:clientState", "err"},
 		oracles: map[string]oracle{"*.DeepCopy": {results: []string{"$recv"}}},
 		state:   []stateField{{goExpr: "s.cs", lean: "cs", kd: kind{k: "map", s: "clientState"}}},
+		holdLocks: []string{"s.csMu"},
 	},
 
 	{
@@ -402,13 +410,15 @@ var specs = []fnSpec{
 		},
 		oracles: map[string]oracle{
 			"s.getClientStateCopy":    {results: []string{"§cs", "§csErr"}, errOf: true},
-			"s.storeClientElectionID": {results: []string{"§stored"}, effect: "storeClientElectionID"},
+			"s.storeClientElectionID": {results: []string{"§stored"}, effect: "storeClientElectionID", ownLock: true},
 		},
 		state: []stateField{
 			{goExpr: "s.curElecID", lean: "curElecID", kd: kPtr("Uint128")},
 			{goExpr: "s.curMaster", lean: "curMaster", kd: kStr},
 		},
-		effects: true,
+		// the comparison with the current id and the update are one step under the election lock
+		holdLocks: []string{"s.elecMu"},
+		effects:   true,
 	},
 }
 
